@@ -455,6 +455,8 @@ int eng_hnd(FILE *in, FILE *out)
         int bad = 0, c, f, u;
         if (n == 1 && !strcmp(tok[0], "case")) {
             case_end(out);
+            /* finished cases must survive a sanitizer abort in a later one */
+            fflush(out);
             case_begin();
             fprintf(out, "= case\n");
             continue;
